@@ -145,6 +145,41 @@ def vmapOp (p : List TOp) (i o level : Nat) : TOp :=
    fun b n => (nmProg p (b.eraseIdx i) (n.eraseIdx i)).insertIdx o none,
    fun b leaves => (vmapTD p i o level ⟨b, [], leaves⟩).leaves⟩
 
+/-! ### several arguments, `in_dims=None` for some of them -/
+
+/-- an argument with `in_dims=None`: `_create_batched_inputs` passes `arg.clone(False)` — the same
+(un-batched) tensordict for every sample -/
+def constBD (size level : Nat) (td : TD) : BTD := ⟨td.batch, td.names, size, level, fun _ => td.leaves⟩
+
+def addBDOpt (i : Option Nat) (size level : Nat) (td : TD) : BTD :=
+  match i with
+  | some i => addBD i level td
+  | none => constBD size level td
+
+/-- slice `k` of an argument along its in_dim, or the argument itself for `None` -/
+def selOpt (td : TD) (i : Option Nat) (k : Nat) : TD :=
+  match i with
+  | some i => td.sel i k
+  | none => td
+
+/-- an operation of two tensordicts (e.g. `a.apply(fn, b)`) -/
+structure TOp2 where
+  bs : Shape → Shape → Shape
+  nm : Shape → Shape → Names → Names → Names
+  lv : Shape → Shape → Leaves → Leaves → Leaves
+
+def TOp2.run (op : TOp2) (a b : TD) : TD :=
+  ⟨op.bs a.batch b.batch, op.nm a.batch b.batch a.names b.names, op.lv a.batch b.batch a.leaves b.leaves⟩
+
+def TOp2.runB (op : TOp2) (a b : BTD) : BTD :=
+  ⟨op.bs a.batch b.batch, op.nm a.batch b.batch a.names b.names, a.size, a.level,
+   fun k => op.lv a.batch b.batch (a.sample k) (b.sample k)⟩
+
+/-- `torch.vmap(f, in_dims=(i1, i2), out_dims=o)(a, b)` for `f(a, b) = p(op(a, b))`; `size` is the vmap size
+(`_validate_and_get_batch_size`) -/
+def vmapTD2 (op : TOp2) (p : List TOp) (i1 i2 : Option Nat) (o size level : Nat) (a b : TD) : TD :=
+  removeBD o (runProgB p (op.runB (addBDOpt i1 size level a) (addBDOpt i2 size level b)))
+
 /-! ### dimension normalisation -/
 
 /-- `in_dim % arg.dim()` (Python modulo: result in [0, r)) -/
